@@ -128,7 +128,15 @@ def run_job(job):
     try:
         with warnings.catch_warnings():
             warnings.simplefilter('ignore')
-            FlowCal.excel_ui.run(input_path=inp, output_path=outp, verbose=False, plot=cfg['plot'], hist_sheet=cfg['hist'])
+            if cfg.get('cli'):
+                # the command-line entry point with the documented options
+                args = ['-i', inp] + (['-o', outp] if outp else []) + (['-p'] if cfg['plot'] else []) + (['-H'] if cfg['hist'] else [])
+                import io as _io
+                import contextlib
+                with contextlib.redirect_stdout(_io.StringIO()):
+                    FlowCal.excel_ui.run_command_line(args)
+            else:
+                FlowCal.excel_ui.run(input_path=inp, output_path=outp, verbose=False, plot=cfg['plot'], hist_sheet=cfg['hist'])
     except Exception as e:  # noqa
         shutil.rmtree(d, ignore_errors=True)
         return [('run-raised/%s' % type(e).__name__, str(e)[:120])]
@@ -220,7 +228,7 @@ def workbook_configs(chk):
             samples.append(dict(id='S%03d' % (k + 1), inst=ins, row=row, variant=i + k, frac=[0.3, 0.85, 0.5][(i + k) % 3],
                                 beads=bid[0] if bid else None))
         cfgs.append(dict(instruments=sorted(set(insts)), beads=beads, samples=samples, plot=(i % 2 == 1), hist=(i % 4 in (1, 2)),
-                         explicit_out=(i % 3 == 0)))
+                         explicit_out=(i % 3 == 0), cli=(i % 4 == 2)))
     return cfgs
 
 
@@ -267,9 +275,8 @@ def main(chk, replay=None):
     chk.add_tlc(res, 'Workbook[<=%d rows]' % maxrows)
     inv = 'INVARIANT NeverAborted\nINVARIANT Isolation\nINVARIANT TableOrder\nPROPERTY Completes\n'
     res2 = tlc.run_tlc('MC_ExcelUI', 'SPECIFICATION Spec\nCONSTANTS RowKinds <- SmallRows\nMaxRows = 2\n' + inv)
-    # Completes cannot hold while the environment may keep the table in "Build": checked from Start on
-    if res2.violated not in (None, 'Completes', 'temporal', 'property') and not res2.ok:
-        raise tlc.MachineryError('MC_ExcelUI: ' + res2.stdout[-1200:])
+    if not res2.ok:
+        raise tlc.MachineryError('MC_ExcelUI (termination): %s\n%s' % (res2.violated, res2.stdout[-1200:]))
     chk.add_tlc(res2, 'MC_ExcelUI[termination]')
     rt = [(i, st['table'], st['out']) for i, st in enumerate(res.dump_states()) if st['out']['k'] != 'building']
     if chk.quick:
